@@ -250,6 +250,10 @@ class Path:
             return True
         if isinstance(v, (Func, Builtin, ClassRef)):
             return True
+        if hasattr(v, 'nonempty'):
+            return self.truth(v.nonempty(self.interp))
+        if type(v).__name__ == 'EnumVal':
+            return True
         raise Unsupported(f'truthiness of {type(v).__name__}')
 
     def unwrap(self, o, what='value'):
